@@ -315,7 +315,13 @@ RetStep(m, ev) ==
     LET api == ev.api IN
     IF api = "_env" THEN Good(m)
     ELSE IF api = "construct" THEN Bad(m, "C15:rejected-valid")                 \* scenarios only use path strings of the grammar
-    ELSE IF ev.outcome = "hang" THEN Bad(m, "C10:hang")
+    ELSE IF ev.outcome = "hang"                     \* the call did not return (I/O budget or wall-clock limit): whatever it was for is not delivered
+         THEN Bad(m, "C10:hang" \o (CASE api \in {"open", "enter", "get_tag_list"} /\ m.lx.on -> "+C05:hang"
+                                      [] api = "read" -> (IF m.kind = "slc" THEN "+C18:hang" ELSE "+C01:hang+C03:hang+C04:hang")
+                                      [] api = "write" -> (IF m.kind = "slc" THEN "+C18:hang" ELSE "+C02:hang+C03:hang+C04:hang")
+                                      [] api = "generic" -> "+C14:hang+C13:hang"
+                                      [] api \in {"get_plc_info", "get_module_info", "_list_identity", "list_identity"} -> "+C16:hang"
+                                      [] OTHER -> ""))
     ELSE IF ev.outcome = "exc" /\ ev.pycomm = 0 THEN Bad(m, "C10:foreign-exception+C13:foreign-exception" \o (IF api \in {"read", "write"} THEN "+C03:exception" ELSE ""))
     ELSE IF api \in {"close", "exit"} /\ ev.connected # 0 THEN Bad(m, "C10:close-state")
     ELSE IF api \in {"close", "exit"} /\ ~m.closeFault /\ m.alive /\ ev.faulted = 0
